@@ -1176,7 +1176,8 @@ def _run_replicas(res, replicas, op, live, outcome, mode, solver, oi):
         kw.pop("alpha", None)   # full Newton steps: quadratic convergence, error << comparison tolerance
         # adaptive damping decides on error comparisons that round-off can flip, so "converged within
         # the budget" is not a well-defined function of the engine there: replicas use plain Newton
-        kw.pop("nonlinear_method", None)
+        kw["nonlinear_method"] = "constant"   # (explicitly: the user layer may hold "automatic" / alpha < 1)
+        kw["alpha"] = 1
         kw["iter"] = 100
         kw.update(s.overrides)
         cc = kw.get("check_connectivity", s.net.get("user_pf_options", {}).get("check_connectivity", True))
